@@ -459,7 +459,17 @@ def r08_8(ctx, prog, crate):
     only_inputs_is_not_needs_drop(ctx, prog, crate, "R08.8")
 
 
+def r08_9(ctx, prog, crate):
+    """(= R06.5) A panic on any thread reaches the caller: `bench_loop_threaded` recognises a panicked thread by the empty
+    entry in the result vector, which exists only because par_extend pre-fills every slot it exposes with None before the
+    broadcast - also when the vector is a cleared one reused from the previous round."""
+    from .C06 import r06_5
+    from .common import Renamed
+    r06_5(Renamed(ctx, "R08.9"), prog, crate)
+
+
 def run(ctx, prog, crate):
+    r08_9(ctx, prog, crate)
     r08_8(ctx, prog, crate)
     r08_6(ctx, prog, crate)
     rec = Recorder(prog, crate)
